@@ -199,7 +199,7 @@ def timeout_cases():
             if driver == "frame" and name in ("illegal-tail", "bad-utf8", "frag+ping", "close", "hs+close"):
                 continue
             for p in range(hs, min(total, hs + 48)):
-                kind = (p + di) % 4
+                kind = (p + di) % 5
                 cuts = [p] if p > 0 else []
                 idx = 1 if p > 0 else 0
                 yield {"frames": specs, "cuts": cuts, "timeouts": [[idx, 1 + (p % 2), kind]], "driver": driver, "cf": cf, "via": via, "stream": name}
@@ -212,10 +212,14 @@ def timeout_cases():
                    "driver": driver, "cf": cf, "via": via, "stream": name}
             yield {"frames": specs, "cuts": cuts[::3], "timeouts": [[i, 1, i % 3] for i in range(first, len(cuts[::3]) + 1)],
                    "driver": driver, "cf": cf, "via": via, "stream": name, "ghost": True}
+            # the blocked receive interrupted from outside (green-thread timeout, signal) before every byte; the application retries
+            yield {"frames": specs, "cuts": cuts, "timeouts": [[i, 1, 4] for i in range(first, len(cuts) + 1)],
+                   "driver": driver, "cf": cf, "via": via, "stream": name}
 
 
 def big_timeout_cases():
     """A receive timeout deep inside a large payload (at and around every 16 KiB of it), then the retry; the frame after it must still be found."""
+    hs = len(simnet.ok_response(b"GET / HTTP/1.1\r\nSec-WebSocket-Key: x\r\n\r\n"))  # (cut positions count from the first byte the server sends)
     for n in (65536, 65540, 70000, 131072, 140001, 200000):
         for masked in (False, True):
             specs = [{"fin": 1, "op": rm.BINARY, "p": {"rep": b"\x01\x02\x03\x05\x07", "n": n}, "key": K if masked else None}, {"fin": 1, "op": rm.TEXT, "p": b"next"}]
@@ -225,10 +229,13 @@ def big_timeout_cases():
                 # one timeout at a time ...
                 for mi, m in enumerate(marks):
                     if (mi + di) % 3 == 0:
-                        yield {"frames": specs, "cuts": [m], "timeouts": [[1, 1 + mi % 2, (mi + di) % 4]], "driver": driver, "cf": cf, "via": "direct", "stream": f"big{n}"}
+                        yield {"frames": specs, "cuts": [m + hs] if mi % 2 else [m], "timeouts": [[1, 1 + mi % 2, (mi + di) % 5]], "driver": driver, "cf": cf, "via": "connect" if mi % 2 else "direct", "stream": f"big{n}"}
                 # ... and one before every 16 KiB block
                 cuts = [hdr + k * 16384 for k in range(1, n // 16384 + 1) if hdr + k * 16384 < hdr + n]
                 yield {"frames": specs, "cuts": cuts, "timeouts": [[i, 1, i % 3] for i in range(1, len(cuts) + 1)], "driver": driver, "cf": cf, "via": "direct", "stream": f"big{n}"}
+                # the same on a connection made by connect() and then switched to non-blocking / interrupted from outside
+                for kind in (3, 4):
+                    yield {"frames": specs, "cuts": [c + hs for c in cuts], "timeouts": [[i, 1, kind] for i in range(1, len(cuts) + 1)], "driver": driver, "cf": cf, "via": "connect", "stream": f"big{n}"}
 
 
 @st.composite
@@ -254,7 +261,7 @@ def cases(draw):
         hot = [i for i, b in enumerate(bounds0) if b in set(interesting)]
         for _ in range(draw(st.integers(1, 4))):
             idx = draw(st.sampled_from(hot)) if hot and draw(st.booleans()) else draw(st.integers(0, nchunks))
-            timeouts.append([idx, draw(st.integers(1, 3)), draw(st.sampled_from([0, 1, 2, 0, 1, 2, 3]))])
+            timeouts.append([idx, draw(st.integers(1, 3)), draw(st.sampled_from([0, 1, 2, 0, 1, 2, 3, 4]))])
     if via == "connect":
         # no timeouts inside the handshake part: keep those whose chunk starts at or after the seam
         bounds = [0] + sorted(set(c for c in cuts if 0 < c < total))
